@@ -118,14 +118,95 @@ Proof.
     intros y [<-|Hy]; auto.
 Qed.
 
+(** the row leaves every column before any Drop runs *)
+Lemma take_cols_clean : forall comps i len cols r taken,
+  (forall col, In col cols -> col_clean len col) ->
+  take_cols comps i len cols = Some (r, taken) ->
+  length r = length cols /\ (forall col, In col r -> col_clean (len - 1) col) /\
+  (forall c x, In (c, x) taken -> exists v, x = Owned v).
+Proof.
+  induction comps as [|c comps IH]; intros i len cols r taken HC H; cbn [take_cols] in H.
+  - destruct cols; [|discriminate]. inversion H; subst.
+    split; [reflexivity|]. split; [intros col []|intros c x []].
+  - destruct cols as [|col cols']; [discriminate|].
+    destruct (col_swap_remove i len col) as [[x col']|] eqn:Es; [|discriminate].
+    destruct (take_cols comps i len cols') as [[r' taken']|] eqn:Er; [|discriminate].
+    inversion H; subst r taken. clear H.
+    destruct (col_swap_remove_clean i len col x col' (HC col (or_introl eq_refl)) Es) as [[v ->] Hc'].
+    destruct (IH i len cols' r' taken' (fun y Hy => HC y (or_intror Hy)) Er) as (L & HR & HT).
+    repeat split; cbn; auto.
+    + intros y [<-|Hy]; auto.
+    + intros c0 x0 [E|Hin]; [inversion E; subst; eauto|eapply HT; exact Hin].
+Qed.
+
+Lemma drop_taken_clean : forall taken f,
+  (forall c x, In (c, x) taken -> exists v, x = Owned v) ->
+  double_drops (fst (drop_taken taken f)) = [].
+Proof.
+  induction taken as [|[c x] t IH]; intros f H; cbn [drop_taken]; [reflexivity|].
+  destruct (tick f) as [f' panics]. specialize (IH f' (fun c0 x0 Hy => H c0 x0 (or_intror Hy))).
+  destruct (drop_taken t f') as [evs p]. cbn [fst] in *.
+  destruct (H c x (or_introl eq_refl)) as [v ->]. cbn. exact IH.
+Qed.
+
+Lemma drop_taken_nofault : forall taken, snd (drop_taken taken None) = false.
+Proof.
+  induction taken as [|[c x] t IH]; cbn [drop_taken tick]; [reflexivity|].
+  destruct (drop_taken t None) as [evs p]. cbn [snd] in *. exact IH.
+Qed.
+
+Lemma remove_cols_deferred_clean : forall comps i len cols f r evs p,
+  (forall col, In col cols -> col_clean len col) ->
+  remove_cols_deferred comps i len cols f = Some (r, evs, p) ->
+  length r = length cols /\ (forall col, In col r -> col_clean (len - 1) col) /\ double_drops evs = [].
+Proof.
+  intros comps i len cols f r evs p HC H. unfold remove_cols_deferred in H.
+  destruct (take_cols comps i len cols) as [[r' taken]|] eqn:E; [|discriminate].
+  destruct (take_cols_clean _ _ _ _ _ _ HC E) as (L & HR & HT).
+  pose proof (drop_taken_clean (rev taken) f (fun c x Hin => HT c x (proj2 (in_rev taken (c, x)) Hin))) as D.
+  destruct (drop_taken (rev taken) f) as [evs' p']. inversion H; subst. cbn [fst] in D. auto.
+Qed.
+
+(** * Removing a row: with the drops deferred and the length decremented first (the source says so:
+      [fact_remove_defers_drops], [fact_remove_decrements_length_first]) the archetype is clean and one row
+      shorter whatever Drop panics, and nothing is dropped twice then or when the world is dropped. *)
+Theorem remove_fault_safe : forall a i f f' a' evs p, Clean a ->
+  p_remove_row_gen true true a i f = Some (a', evs, p) ->
+  Clean a' /\ pa_len a' = pa_len a - 1 /\ double_drops evs = [] /\ double_drops (fst (p_drop_arch a' f')) = [].
+Proof.
+  intros a i f f' a' evs p [HL HC] H. unfold p_remove_row_gen in H.
+  destruct (remove_cols_deferred (bits_on (pa_shape a)) i (pa_len a) (pa_cols a) f) as [[[cols evs'] unw]|] eqn:E; [|discriminate].
+  destruct (remove_cols_deferred_clean _ _ _ _ _ _ _ _ HC E) as (L & HR & DD).
+  inversion H; subst a' evs p. clear H. rewrite andb_false_r. cbn [pa_len pa_cols pa_shape].
+  assert (HC' : Clean (mkPArch (pa_shape a) cols (pa_len a - 1))).
+  { split; cbn [pa_cols pa_shape pa_len]; [rewrite L; exact HL|exact HR]. }
+  split; [exact HC'|]. split; [reflexivity|]. split; [exact DD|]. exact (drop_clean_no_double _ f' HC').
+Qed.
+
+Lemma fact_remove_deferred : fact_remove_defers_drops = true.
+Proof. reflexivity. Qed.
+Lemma fact_remove_len_first : fact_remove_decrements_length_first = true.
+Proof. reflexivity. Qed.
+
+Theorem remove_fault_safe_src : forall a i f f' a' evs p, Clean a ->
+  p_remove_row a i f = Some (a', evs, p) ->
+  Clean a' /\ pa_len a' = pa_len a - 1 /\ double_drops evs = [] /\ double_drops (fst (p_drop_arch a' f')) = [].
+Proof.
+  intros a i f f' a' evs p HC H. unfold p_remove_row in H. rewrite fact_remove_deferred, fact_remove_len_first in H.
+  exact (remove_fault_safe a i f f' a' evs p HC H).
+Qed.
+
+(** without a fault the removal does not unwind *)
 Theorem remove_row_clean a i a' evs p : Clean a -> p_remove_row a i None = Some (a', evs, p) ->
   p = false /\ Clean a' /\ pa_len a' = pa_len a - 1 /\ double_drops evs = [].
 Proof.
-  intros [HL HC] H. unfold p_remove_row in H.
-  destruct (remove_cols (bits_on (pa_shape a)) i (pa_len a) (pa_cols a) None) as [[[cols evs'] unw]|] eqn:E; [|discriminate].
-  destruct (remove_cols_clean _ _ _ _ _ _ _ HC E) as (-> & L & HR & DD).
-  inversion H; subst a' evs p. cbn [pa_len pa_cols pa_shape].
-  split; [reflexivity|]. split; [split; [cbn [pa_cols pa_shape]; rewrite L; exact HL|exact HR]|]. split; [reflexivity|exact DD].
+  intros HC H. destruct (remove_fault_safe_src a i None None a' evs p HC H) as (C' & L & D & _).
+  split; [|auto].
+  unfold p_remove_row, p_remove_row_gen in H. rewrite fact_remove_deferred in H.
+  unfold remove_cols_deferred in H.
+  destruct (take_cols (bits_on (pa_shape a)) i (pa_len a) (pa_cols a)) as [[r taken]|]; [|discriminate].
+  pose proof (drop_taken_nofault (rev taken)) as N.
+  destruct (drop_taken (rev taken) None) as [evs' p']. cbn [snd] in N. inversion H; subst. reflexivity.
 Qed.
 
 (** * Clearing without a fault *)
@@ -213,10 +294,27 @@ Qed.
 (** * The failing classes (findings F8a, F8b), with witnesses *)
 Definition w_arch : parch := mkPArch [true; true] [[Owned 11; Owned 21; Owned 31]%N; [Owned 12; Owned 22; Owned 32]%N] 3.
 
-(** a panic in the Drop of the first column's value during remove: the moved last cell is dropped twice at world drop *)
+(** as it was before the repair of F8a (values dropped column by column, length written last): a panic in
+    the Drop of the first column's value during remove: the moved last cell is dropped twice at world drop *)
 Lemma remove_fault_double_drop :
-  match p_remove_row w_arch 0 (Some 0) with
+  match p_remove_row_gen false false w_arch 0 (Some 0) with
   | Some (a', _, unwound) => unwound = true /\ double_drops (fst (p_drop_arch a' None)) = [(0, 31%N)]
+  | None => False
+  end.
+Proof. vm_compute. auto. Qed.
+
+(** each of the two changes is needed: deferring the drops alone leaves the old length over shortened columns *)
+Lemma remove_deferred_alone_double_drop :
+  match p_remove_row_gen true false w_arch 0 (Some 0) with
+  | Some (a', _, unwound) => unwound = true /\ double_drops (fst (p_drop_arch a' None)) <> []
+  | None => False
+  end.
+Proof. vm_compute. split; [reflexivity|discriminate]. Qed.
+
+(** ... and decrementing the length first alone loses the last row of the columns not reached yet *)
+Lemma remove_len_first_alone_leaves_unclean :
+  match p_remove_row_gen false true w_arch 0 (Some 0) with
+  | Some (a', _, unwound) => unwound = true /\ nth_error (pa_cols a') 1 = Some [Owned 12; Owned 22; Owned 32]%N /\ pa_len a' = 2
   | None => False
   end.
 Proof. vm_compute. auto. Qed.
